@@ -156,6 +156,27 @@ Theorem C14_second_episode_after_giveup : forall i t g t' ids j j2,
 Proof. exact second_episode_after_giveup. Qed.
 Print Assumptions C14_second_episode_after_giveup.
 
+(* "if nothing authenticated arrives": every KIND of authenticated arrival deletes
+   the new-handshake timer — a handshake initiation of the peer (any state); and,
+   with nothing staged (so that no data is sent in the same step), a transport
+   message (data or keepalive) and the response to the pending initiation. *)
+Theorem C14_initiation_cancels_new_handshake : forall s t j,
+  active s = true -> pending (tm_newhs (fst (step s (mkev t IInit j)))) = false.
+Proof. exact initiation_cancels_new_handshake. Qed.
+Print Assumptions C14_initiation_cancels_new_handshake.
+
+Theorem C14_transport_cancels_new_handshake : forall s t j d k,
+  active s = true -> staged s = [] -> kp_next s = None -> kp_cur s = Some k ->
+  pending (tm_newhs (fst (step s (mkev t (IRecv d) j)))) = false.
+Proof. exact transport_cancels_new_handshake. Qed.
+Print Assumptions C14_transport_cancels_new_handshake.
+
+Theorem C14_response_cancels_new_handshake : forall s t j,
+  active s = true -> staged s = [] -> hs s = hsInitiationCreated ->
+  pending (tm_newhs (fst (step s (mkev t IResp j)))) = false.
+Proof. exact response_cancels_new_handshake. Qed.
+Print Assumptions C14_response_cancels_new_handshake.
+
 (* Data received at t on an established session and nothing sent since:
    exactly one keepalive, at t + 10 s. *)
 Theorem C14_keepalive_after_10s_receive_only : forall s k t id j js T fuel,
